@@ -95,6 +95,7 @@ def run(out, unit, tier, seed, workdir, overlay):
         return
     data = open(trace, "rb").read()
     os.remove(trace)
+    selection = next((pl["shape"] for pl in plans.values() if pl.get("op") == "selection"), "the library selects the accelerated path on this CPU")
     cur = None
     ops = hits = 0
     seen_end = False
@@ -120,7 +121,8 @@ def run(out, unit, tier, seed, workdir, overlay):
             short = nme.replace("github.com/bilibili/smgo/", "")
             out.violation("public-operation-served-by-table-driven-code:%s:%s" % (cur["op"].split(".")[-1], short.split("/")[-1]),
                           {"operation": cur["op"], "shape": cur["shape"], "routine_executed": short,
-                           "meaning": "on a CPU where the accelerated path is selected this public operation ran a routine that indexes tables with key/data bytes"})
+                           "meaning": "on a CPU where the accelerated path is selected this public operation ran a routine that indexes tables with key/data bytes",
+                           "selection": selection})
     if not seen_end:
         out.inconclusive.append("paths: end marker not seen in the trace")
     out.counters["public_operations_traced"] = ops
